@@ -27,6 +27,18 @@ out.append("Each change was written by a fresh sub-agent that saw only the prope
 for m in sorted(glob.glob(os.path.join(R, "seeded", "*", "meta.json"))):
     d = json.load(open(m))
     out.append("* **%s** `seeded/%s` — %s *Needs:* %s *Result:* %s" % (d["property"], os.path.basename(os.path.dirname(m)), d["breaks"], d["needs_to_manifest"], d["detected_by"]))
+out.append("\n\n## 14. Summary of the registered checks (last recorded run of each)\n")
+out.append("| id | tier/seed of the recorded run | TLC distinct states | TLC transitions | behaviours/traces bound to the code | wall s | known findings observed |")
+out.append("|---|---|---|---|---|---|---|")
+for pid in sorted(claimed):
+    ef = os.path.join(R, "evidence", pid + ".json")
+    if not os.path.exists(ef):
+        continue
+    e = json.load(open(ef)); c = e["coverage"]
+    out.append("| %s | %s/%s | %s | %s | %s | %s | %s |" % (pid, e["tier"], e["seed"], c.get("states", "-"), c.get("transitions", "-"),
+               c.get("traces_validated_against_impl", "-"), e.get("wall_s", "-"), ", ".join(c.get("known_findings_observed", [])) or "-"))
+hc = os.path.join(R, "tools/hook_commits.txt")
+out.append("\nHook commits in /repo (build tag `verif`, add-only; MANIFEST.hooks.source_commits): " + ", ".join("`%s`" % l.split()[0][:8] for l in open(hc) if l.strip() and not l.startswith("#")) + ".\n")
 ex = os.path.join(R, "design_notes/_closing.md")
 if os.path.exists(ex):
     out.append("\n" + open(ex).read().rstrip())
